@@ -137,3 +137,78 @@ def diff_batteries(a: dict, b: dict, limit=4):
 
 def kind_of_key(k: str) -> str:
     return k.split(":")[0]
+
+
+# --------------------------------------------------------------------------
+# The same battery as a static message script (for the real executable)
+# --------------------------------------------------------------------------
+def battery_script(root, files, first_id=100):
+    """(messages, id -> key).  didSave notifications produce publishDiagnostics,
+    which are collected by uri."""
+    from fortls.jsonrpc import path_to_uri
+
+    msgs, keys = [], {}
+    rid = first_id
+
+    def req(key, method, params):
+        nonlocal rid
+        rid += 1
+        keys[rid] = key
+        msgs.append({"jsonrpc": "2.0", "id": rid, "method": method, "params": params})
+
+    for rel in sorted(files):
+        path = os.path.join(root, rel)
+        msgs.append({"jsonrpc": "2.0", "method": "textDocument/didSave", "params": {"textDocument": {"uri": path_to_uri(path)}}})
+        req(f"symbols:{rel}", "textDocument/documentSymbol", {"textDocument": {"uri": path_to_uri(path)}})
+    req("workspace_symbols", "workspace/symbol", {"query": ""})
+    for rel in sorted(files):
+        path = os.path.join(root, rel)
+        text = files[rel]
+        fx = bool(re.search(r"\.(f|F|for|FOR|f77|F77)$", rel))
+        lines = re.split(r"\r\n|\n|\r", text)
+        for (ln, a, b, word) in occurrences(text, fx):
+            mid = (a + b) // 2
+            k = f"{rel}:{ln}:{a}:{word}"
+            req("def:" + k, "textDocument/definition", Server.tdpp(path, ln, mid))
+            req("hover:" + k, "textDocument/hover", Server.tdpp(path, ln, mid))
+            req("refs:" + k, "textDocument/references", Server.tdpp(path, ln, mid, context={"includeDeclaration": True}))
+            req("comp:" + k, "textDocument/completion", Server.tdpp(path, ln, b))
+            if lines[ln][b:b + 1] == "(":
+                req("sig:" + k, "textDocument/signatureHelp", Server.tdpp(path, ln, b + 1))
+    return msgs, keys
+
+
+def collect_script(outputs, keys, root):
+    """Normalised battery dict from the output objects of a scripted run."""
+    norm = Normaliser(root)
+    out = {}
+    diags = {}
+    for o in outputs:
+        if "id" in o and "method" not in o and o["id"] in keys:
+            k = keys[o["id"]]
+            r = o.get("result") if "error" not in o else ["__error__", o["error"].get("code"), str(o["error"].get("message"))[:200]]
+            kind = k.split(":")[0]
+            if kind == "refs" and isinstance(r, list) and "error" not in o:
+                r = sorted(norm(r), key=_key)
+            elif kind == "comp" and isinstance(r, list) and "error" not in o:
+                r = [list(x) for x in sorted({(c.get("label"), c.get("kind"), c.get("detail")) for c in r}, key=_key)]
+            elif kind == "workspace_symbols" and isinstance(r, list) and "error" not in o:
+                r = sorted(norm(r), key=_key)
+            out[k] = norm(r)
+        elif o.get("method") == "textDocument/publishDiagnostics":
+            u = norm(o["params"]["uri"])
+            diags[u] = sorted((norm({"range": d["range"], "severity": d.get("severity"), "message": d["message"],
+                                     "related": [(r["location"]["uri"], r["location"]["range"]["start"]["line"], r["message"])
+                                                 for r in d.get("relatedInformation", [])]}) for d in o["params"]["diagnostics"]), key=_key)
+        elif o.get("method") == "window/showMessage":
+            out.setdefault("messages", []).append(norm(o["params"]["message"]))
+    for u, d in diags.items():
+        out["diag:" + u.replace("<R>/", "")] = d
+    return out
+
+
+def script_in_process(s: Server, msgs):
+    outs = []
+    for m in msgs:
+        outs += s.handle(m)
+    return outs
